@@ -4,4 +4,6 @@ pub mod rng;
 pub mod util;
 pub mod drive;
 pub mod irdump;
+pub mod canon;
+pub mod cppgen;
 pub mod cgen;
